@@ -139,6 +139,44 @@ def cmd_run(args):
     return 0
 
 
+def _reconfirm_one(sid):
+    """Does the change still break the property on the CURRENT /repo (later fix: commits may have neutralised it)?"""
+    dst = os.path.join(SEEDED, sid)
+    scratch = f'/var/tmp/bumble-reconfirm-{sid}'
+    shutil.rmtree(scratch, ignore_errors=True)
+    subprocess.run(['rsync', '-a', '--exclude', '.git', '--exclude', '__pycache__', '/repo/', scratch + '/'], check=True)
+    try:
+        demo = os.path.join(dst, 'demo.py')
+        rc0, _ = run_demo(scratch, demo)
+        rc, out, err = sh(['patch', '-p1', '-s', '-i', os.path.join(dst, 'patch.diff')], cwd=scratch)
+        if rc:
+            return sid, {'head': HEAD, 'patch_applies': False, 'demo_unmodified_rc': rc0}
+        rc1, tail = run_demo(scratch, demo)
+        return sid, {'head': HEAD, 'patch_applies': True, 'demo_unmodified_rc': rc0, 'demo_changed_rc': rc1}
+    finally:
+        shutil.rmtree(scratch, ignore_errors=True)
+
+
+HEAD = subprocess.run(['git', '-C', '/repo', 'rev-parse', '--short', 'HEAD'], capture_output=True, text=True).stdout.strip()
+
+
+def cmd_reconfirm(args):
+    import multiprocessing
+
+    ids = args.ids or sorted(d for d in os.listdir(SEEDED) if os.path.exists(os.path.join(SEEDED, d, 'meta.json')))
+    with multiprocessing.Pool(8) as pool:
+        for sid, res in pool.imap_unordered(_reconfirm_one, ids):
+            mp = os.path.join(SEEDED, sid, 'meta.json')
+            meta = json.load(open(mp))
+            meta['reconfirmed'] = res
+            json.dump(meta, open(mp, 'w'), indent=1)
+            state = ('patch no longer applies' if not res['patch_applies'] else
+                     'still breaks the property' if res['demo_changed_rc'] and not res['demo_unmodified_rc'] else
+                     'NEUTRALISED (demo passes with the change)' if not res['demo_changed_rc'] else 'demo fails without the change')
+            print(sid, state, res)
+    return 0
+
+
 def cmd_table(_args):
     print('| id | property | change | needs | detected by |')
     print('|---|---|---|---|---|')
@@ -151,6 +189,10 @@ def cmd_table(_args):
             f"{p} {r['tier']}: {r['verdict']}" + (f" ({r['signatures'][0]})" if r['signatures'] else '')
             for p, r in m.get('checks', {}).items()
         )
+        rc = m.get('reconfirmed') or {}
+        if rc and (not rc.get('patch_applies') or not rc.get('demo_changed_rc')):
+            det += f" - retired: on /repo {rc.get('head')} " + ('the patch no longer applies' if not rc.get('patch_applies') else
+                                                            'the change no longer breaks the property (its own demo passes with it; a later fix: commit neutralised it)')
         print(f"| {d} | {m.get('property')} | {m.get('title', '')[:70]} | {str(m.get('needs', ''))[:90]} | {det} |")
     return 0
 
@@ -169,8 +211,10 @@ def main():
     b.add_argument('--tier', default='quick')
     b.add_argument('--seed', default='1')
     sub.add_parser('table')
+    c = sub.add_parser('reconfirm')
+    c.add_argument('ids', nargs='*')
     args = ap.parse_args()
-    return {'import': cmd_import, 'run': cmd_run, 'table': cmd_table}[args.cmd](args)
+    return {'import': cmd_import, 'run': cmd_run, 'table': cmd_table, 'reconfirm': cmd_reconfirm}[args.cmd](args)
 
 
 if __name__ == '__main__':
